@@ -1167,7 +1167,7 @@ class Client():
                         try:
                             self.redirect()
                             redirected = True
-                        except (ValueError, OSError) as ex:  # bad, unresolvable or refused location
+                        except (ValueError, OSError, httping.HTTPException) as ex:  # bad, unresolvable or refused location
                             self.redirects.pop()  # not followed so deliver it as errored response
                             response['errored'] = True
                             response['error'] = "Redirect failed: {0}".format(ex)
